@@ -46,10 +46,17 @@ func runC07(t *mon.T, raw json.RawMessage) {
 	// in the embedded index) although it is read without the option: how identity keys are answered
 	// depends on the reading options only
 	fullIdx := d.StoreID || (d.Seed>>3)%4 == 0
+	if d.StoreID && d.Supplied != "" && (d.Seed>>5)%2 == 0 {
+		// the archive was written WITHOUT identity storing (its embedded index has no identity records);
+		// the caller reads it with the option on and supplies a complete index: the supplied index is the
+		// one to be used
+		fullIdx = false
+		t.Cover("supplied-complete-index-over-an-incomplete-embedded-one")
+	}
 	if !d.StoreID && fullIdx {
 		t.Cover("archive-fully-indexed-read-without-the-option")
 	}
-	if !fullIdx && r.Intn(5) == 0 {
+	if !fullIdx && !d.StoreID && r.Intn(5) == 0 {
 		// an identity CID longer than MaxIndexCidSize: never indexed without the option, so no limit applies
 		i := r.Intn(len(content.Blocks) + 1)
 		content.Blocks = append(content.Blocks[:i], append([]refcar.Block{gen.LongIdentityBlock(r)}, content.Blocks[i:]...)...)
